@@ -10,9 +10,24 @@
 use super::super::*;
 #[cfg(not(kani))]
 use crate::kani;
+use crate::verif_support::{pn, ref_varint, StubCtx};
+use s2n_quic_core::packet::number::PacketNumberRange;
 
 const M: u64 = (1 << 62) - 1;
 const UNKNOWN: u64 = u64::MAX;
+
+// StreamError::stream_reset records its caller (#[track_caller]); caller_location is not supported
+// by Kani, so Location::caller is replaced by a constant location
+#[cfg(kani)]
+static VERIF_LOC: &core::panic::Location<'static> = core::panic::Location::caller();
+#[cfg(kani)]
+struct StubLoc<'a>(core::marker::PhantomData<&'a ()>);
+#[cfg(kani)]
+impl<'a> StubLoc<'a> {
+    fn caller() -> &'static core::panic::Location<'static> {
+        VERIF_LOC
+    }
+}
 
 fn vi(max: u64) -> VarInt {
     let v: u64 = kani::any();
@@ -174,9 +189,42 @@ impl Books {
     }
 }
 
-/// A stream in the Receiving state at an arbitrary point of its life, the connection window being
+const RECEIVING: u8 = 0;
+const STOPPING: u8 = 1;
+const RESET: u8 = 2;
+const DATA_READ: u8 = 3;
+
+struct Fix {
+    s: ReceiveStream,
+    conn: IncomingConnectionFlowController,
+    b: Books,
+    /// buffer cursors before the step
+    c: Cur,
+    w: usize,
+    kind: u8,
+    /// Stopping: the missing range and the error code of the pending STOP_SENDING;
+    /// Reset: the error code of the reset
+    ms: u64,
+    me: u64,
+    code: u64,
+    /// largest MAX_STREAM_DATA value the peer has acknowledged
+    ackd: u64,
+}
+
+fn reset_code(e: &StreamError) -> Option<u64> {
+    match e {
+        StreamError::StreamReset { error, .. } => Some(u64::from(*error)),
+        _ => None,
+    }
+}
+
+/// A stream at an arbitrary point of its life in the given state, the connection window being
 /// shared with other streams that hold `other` unconsumed bytes.
-fn any_receiving() -> (ReceiveStream, IncomingConnectionFlowController, Books, Cur, usize) {
+///  * Receiving: consumed == released <= highest offset seen == charged; a known final size was
+///    charged in full (on_data acquires up to the end of the FIN frame) and stopped MAX_STREAM_DATA
+///  * Stopping: buffer dropped, STOP_SENDING requested, books as they were
+///  * Reset / DataRead: buffer dropped, everything charged has been released, nothing to send
+fn any_stream(kind: u8) -> Fix {
     let conn_window: u32 = kani::any();
     let s_window: u32 = kani::any();
     let conn_init = vi(M);
@@ -189,11 +237,14 @@ fn any_receiving() -> (ReceiveStream, IncomingConnectionFlowController, Books, C
     let released = vi(M);
     let acquired = vi(M);
     kani::assume(released <= acquired && acquired.as_u64() <= (released.as_u64() + s_window as u64).min(M));
+    if kind == RESET || kind == DATA_READ {
+        kani::assume(released == acquired);
+    }
     s.flow_controller.released_connection_window = released;
     s.flow_controller.acquired_connection_window = acquired;
     let adv = VarInt::new((released.as_u64() + s_window as u64).min(M)).unwrap();
-    // what release_window leaves behind: latest value = released + window; the peer has seen some
-    // value between the initial grant and that
+    // what release_window leaves behind: latest value = released + window; the peer has
+    // acknowledged some value up to that
     let ackd = vi(M);
     kani::assume(ackd <= adv);
     s.flow_controller.read_window_sync = IncrementalValueSync::new(adv, ackd, VarInt::from_u32(s_window / 10));
@@ -220,36 +271,102 @@ fn any_receiving() -> (ReceiveStream, IncomingConnectionFlowController, Books, C
     };
     assert!(conn.acquired_window().as_u64() == b.conn_acquired);
 
-    // buffer cursors: everything consumed was released; the highest offset seen was charged; a
-    // known final size was charged in full (on_data acquires up to the end of the FIN frame)
-    let max_recv: u64 = kani::any();
-    let fin_known: bool = kani::any();
-    kani::assume(b.released <= max_recv && max_recv <= b.acquired);
-    let c = Cur { start: b.released, max_recv, fin: if fin_known { b.acquired } else { UNKNOWN } };
     let w = cursor_word(&s.receive_buffer);
-    set_cursors(&mut s.receive_buffer, w, c);
-    if fin_known {
-        // Size Known: MAX_STREAM_DATA is no longer synchronised
-        s.flow_controller.stop_sync();
+    let mut c = Cur { start: 0, max_recv: 0, fin: UNKNOWN };
+    let (mut ms, mut me, mut code) = (0, 0, 0);
+    match kind {
+        RECEIVING => {
+            let fin_known: bool = kani::any();
+            if fin_known {
+                let max_recv: u64 = kani::any();
+                kani::assume(b.released <= max_recv && max_recv <= b.acquired);
+                c = Cur { start: b.released, max_recv, fin: b.acquired };
+                // Size Known: MAX_STREAM_DATA is no longer synchronised
+                s.flow_controller.stop_sync();
+            } else {
+                c = Cur { start: b.released, max_recv: b.acquired, fin: UNKNOWN };
+            }
+            set_cursors(&mut s.receive_buffer, w, c);
+        }
+        STOPPING => {
+            code = vi(M).as_u64();
+            ms = vi(M).as_u64();
+            me = if kani::any() { u64::MAX } else { vi(M).as_u64() };
+            let app: application::Error = VarInt::new(code).unwrap().into();
+            s.state = ReceiveStreamState::Stopping {
+                error: StreamError::stream_reset(app),
+                missing_data: MissingData { start: ms, end: me },
+            };
+            s.stop_sending_sync.request_delivery(app);
+            s.detached = true;
+        }
+        RESET => {
+            code = vi(M).as_u64();
+            let app: application::Error = VarInt::new(code).unwrap().into();
+            s.state = ReceiveStreamState::Reset(StreamError::stream_reset(app));
+            s.flow_controller.stop_sync();
+            s.stop_sending_sync.stop_sync();
+            s.detached = kani::any();
+            s.final_state_observed = s.detached;
+        }
+        _ => {
+            s.state = ReceiveStreamState::DataRead;
+            s.flow_controller.stop_sync();
+            s.stop_sending_sync.stop_sync();
+            s.detached = kani::any();
+            s.final_state_observed = s.detached;
+        }
     }
-    (s, conn, b, c, w)
+    Fix { s, conn, b, c, w, kind, ms, me, code, ackd: ackd.as_u64() }
 }
 
-/// observes the connection's remaining credit (consumed + window - acquired) from outside
+fn any_kind() -> u8 {
+    let k: u8 = kani::any();
+    kani::assume(k <= DATA_READ);
+    k
+}
+
+/// observes the connection's remaining credit (consumed + window - acquired) from outside with a
+/// symbolic probe; must be the last thing done with the controller
 fn conn_remaining_is(conn: &IncomingConnectionFlowController, expected: u64) -> bool {
     let probe = vi(M);
     let mut c = conn.clone();
-    let before = c.acquired_window();
-    let ok = c.acquire_window(probe).is_ok();
-    if ok {
-        // undo is not offered by the API: the probe is the last thing done with the controller
-        let _ = before;
-    }
-    ok == (probe.as_u64() <= expected)
+    c.acquire_window(probe).is_ok() == (probe.as_u64() <= expected)
 }
 
 fn is_code(e: &transport::Error, c: transport::Error) -> bool {
     e.code == c.code
+}
+
+fn state_kind(s: &ReceiveStream) -> u8 {
+    match s.state {
+        ReceiveStreamState::Receiving => RECEIVING,
+        ReceiveStreamState::Stopping { .. } => STOPPING,
+        ReceiveStreamState::Reset(_) => RESET,
+        ReceiveStreamState::DataRead => DATA_READ,
+    }
+}
+
+fn books_unchanged(f: &Fix) -> bool {
+    f.s.flow_controller.acquired_connection_window.as_u64() == f.b.acquired
+        && f.s.flow_controller.released_connection_window.as_u64() == f.b.released
+        && f.conn.acquired_window().as_u64() == f.b.conn_acquired
+        && f.s.flow_controller.read_window_sync.latest_value().as_u64() == f.b.adv()
+}
+
+fn any_frame<'a>(payload: &'a [u8; 4]) -> (StreamRef<'a>, u64, usize, bool) {
+    let off = vi(M);
+    let len: usize = kani::any();
+    kani::assume(len <= 4);
+    let is_fin: bool = kani::any();
+    let frame = StreamRef {
+        stream_id: VarInt::from_u8(4),
+        offset: off,
+        is_last_frame: kani::any(),
+        is_fin,
+        data: &payload[..len],
+    };
+    (frame, off.as_u64(), len, is_fin)
 }
 
 // ---------------------------------------------------------------------------------------------
@@ -260,29 +377,26 @@ fn is_code(e: &transport::Error, c: transport::Error) -> bool {
 #[cfg_attr(kani, kani::stub(Reassembler::write_at_fin, stub_write_at_fin))]
 fn verif_rx_on_data_receiving() {
     validate_layout();
-    let (mut s, conn, b, c, w) = any_receiving();
+    let mut f = any_stream(RECEIVING);
+    let (b, c, w) = (f.b, f.c, f.w);
     #[cfg(kani)]
     unsafe {
         WR_WORD = w;
         WR_CALLS = 0;
     }
-    let off = vi(M);
-    let len: usize = kani::any();
-    kani::assume(len <= 4);
-    let is_fin: bool = kani::any();
+    // a reader may be parked on the stream
+    let parked: bool = kani::any();
+    if parked {
+        let lw: usize = kani::any();
+        f.s.read_waiter = Some((Waker::noop().clone(), lw));
+    }
     let payload: [u8; 4] = kani::any();
-    let frame = StreamRef {
-        stream_id: VarInt::from_u8(4),
-        offset: off,
-        is_last_frame: kani::any(),
-        is_fin,
-        data: &payload[..len],
-    };
+    let (frame, off, len, is_fin) = any_frame(&payload);
     let mut events = StreamEvents::new();
-    let r = s.on_data(&frame, &mut events);
+    let r = f.s.on_data(&frame, &mut events);
 
     // ---- oracle (RFC 9000 4.1, 4.5, 19.8) ----
-    let end = off.as_u64() as u128 + len as u128;
+    let end = off as u128 + len as u128;
     let known = c.fin != UNKNOWN;
     let overflow = end > M as u128;
     let end = end as u64;
@@ -300,7 +414,7 @@ fn verif_rx_on_data_receiving() {
     } else {
         known && end > c.fin
     };
-    let post = get_cursors(&s.receive_buffer, w);
+    let post = get_cursors(&f.s.receive_buffer, w);
     #[cfg(kani)]
     let calls = unsafe { WR_CALLS };
 
@@ -314,10 +428,9 @@ fn verif_rx_on_data_receiving() {
         #[cfg(kani)]
         assert!(calls == 0);
         assert!(post == c);
-        assert!(s.flow_controller.acquired_connection_window.as_u64() == b.acquired);
-        assert!(s.flow_controller.released_connection_window.as_u64() == b.released);
-        assert!(conn.acquired_window().as_u64() == b.conn_acquired);
-        assert!(s.state == ReceiveStreamState::Receiving);
+        assert!(books_unchanged(&f));
+        assert!(f.s.state == ReceiveStreamState::Receiving);
+        assert!(events.read_wake.is_none());
     } else if fin_violation {
         kani::cover!(is_fin && known, "second FIN with a different final size");
         kani::cover!(is_fin && !known, "FIN below data already received");
@@ -325,8 +438,9 @@ fn verif_rx_on_data_receiving() {
         assert!(matches!(&r, Err(e) if is_code(e, transport::Error::FINAL_SIZE_ERROR)));
         // nothing is stored, the final size does not change
         assert!(post == c);
-        assert!(s.state == ReceiveStreamState::Receiving);
-        assert!(s.flow_controller.released_connection_window.as_u64() == b.released);
+        assert!(books_unchanged(&f));
+        assert!(f.s.state == ReceiveStreamState::Receiving);
+        assert!(events.read_wake.is_none());
     } else {
         kani::cover!(!known && end == b.adv() && additional > 0, "new data up to exactly the stream limit");
         kani::cover!(!known && additional == b.conn_remaining() && additional > 0, "new data up to exactly the connection limit");
@@ -337,38 +451,385 @@ fn verif_rx_on_data_receiving() {
         #[cfg(kani)]
         unsafe {
             assert!(calls == 1);
-            assert!(WR_OFF == off.as_u64() && WR_LEN == len && WR_FIN == is_fin);
+            assert!(WR_OFF == off && WR_LEN == len && WR_FIN == is_fin);
             assert!(WR_PTR == payload.as_ptr() as usize);
         }
         // every new byte is charged once to the stream and once to the connection
         let acq1 = if known { b.acquired } else { b.acquired + additional };
-        assert!(s.flow_controller.acquired_connection_window.as_u64() == acq1);
-        assert!(conn.acquired_window().as_u64() == b.conn_acquired + (acq1 - b.acquired));
-        assert!(s.flow_controller.released_connection_window.as_u64() == b.released);
+        assert!(f.s.flow_controller.acquired_connection_window.as_u64() == acq1);
+        assert!(f.conn.acquired_window().as_u64() == b.conn_acquired + (acq1 - b.acquired));
+        assert!(f.s.flow_controller.released_connection_window.as_u64() == b.released);
         let fin1 = if is_fin { end } else { c.fin };
         if is_fin && end == c.start {
-            // FIN of a stream whose data was all consumed already: Data Read
-            kani::cover!(true, "FIN completes a fully consumed stream");
-            assert!(s.state == ReceiveStreamState::DataRead);
+            // FIN of a stream whose data was all consumed already: Data Read, reader released
+            kani::cover!(parked, "FIN completes a fully consumed stream with a parked reader");
+            assert!(f.s.state == ReceiveStreamState::DataRead);
             assert!(post == Cur { start: 0, max_recv: 0, fin: UNKNOWN });
+            assert!(events.read_wake.is_some() == parked);
         } else {
-            assert!(s.state == ReceiveStreamState::Receiving);
+            assert!(f.s.state == ReceiveStreamState::Receiving);
             assert!(post.start == c.start && post.fin == fin1);
             assert!(post.max_recv == c.max_recv.max(end));
             // invariant of the Receiving state, re-established
-            assert!(post.max_recv <= acq1 && (fin1 == UNKNOWN || fin1 == acq1));
+            assert!(if fin1 == UNKNOWN { post.max_recv == acq1 } else { post.max_recv <= acq1 && fin1 == acq1 });
         }
         if fin1 != UNKNOWN {
             // Size Known: no further MAX_STREAM_DATA (RFC 9000 3.2)
-            assert!(s.flow_controller.read_window_sync.is_cancelled());
-            assert!(!s.flow_controller.read_window_sync.has_transmission_interest());
+            assert!(f.s.flow_controller.read_window_sync.is_cancelled());
+            assert!(!f.s.flow_controller.read_window_sync.has_transmission_interest());
         }
     }
     // the advertised stream limit never moves on incoming data
-    assert!(s.flow_controller.read_window_sync.latest_value().as_u64() == b.adv());
+    assert!(f.s.flow_controller.read_window_sync.latest_value().as_u64() == b.adv());
     core::mem::forget(events);
-    core::mem::forget(s);
-    core::mem::forget(conn);
+    core::mem::forget(f);
+}
+
+// ---------------------------------------------------------------------------------------------
+// C04-O4b: one STREAM frame after the receive side has left the Receiving state: stopped by the
+// application (STOP_SENDING requested), reset, or completely read.  The code ignores the data in
+// all three states (no flow-control or final-size check is made any more - see the remarks in
+// on_data); in the Stopping state it only tracks whether everything the peer had sent before it
+// learns of the STOP_SENDING has arrived, to stop repeating the STOP_SENDING.
+#[cfg_attr(kani, kani::proof)]
+#[cfg_attr(kani, kani::unwind(6))]
+#[cfg_attr(kani, kani::stub(Reassembler::write_at, stub_write_at))]
+#[cfg_attr(kani, kani::stub(Reassembler::write_at_fin, stub_write_at_fin))]
+#[cfg_attr(kani, kani::stub(core::panic::Location::caller, StubLoc::caller))]
+fn verif_rx_on_data_closed() {
+    validate_layout();
+    let kind = any_kind();
+    kani::assume(kind != RECEIVING);
+    let mut f = any_stream(kind);
+    #[cfg(kani)]
+    unsafe {
+        WR_WORD = f.w;
+        WR_CALLS = 0;
+    }
+    let payload: [u8; 4] = kani::any();
+    let (frame, off, len, is_fin) = any_frame(&payload);
+    // MissingData::on_data adds offset + length with the checked VarInt `+` (panics in debug
+    // builds, plain u64 addition in release builds): frames beyond 2^62-1 are excluded here
+    kani::assume(off + len as u64 <= M);
+    let observed0 = f.s.final_state_observed;
+    let mut events = StreamEvents::new();
+    let r = f.s.on_data(&frame, &mut events);
+
+    assert!(r.is_ok());
+    // nothing is handed to the buffer, nothing is accounted, the state is kept
+    #[cfg(kani)]
+    assert!(unsafe { WR_CALLS } == 0);
+    assert!(get_cursors(&f.s.receive_buffer, f.w) == Cur { start: 0, max_recv: 0, fin: UNKNOWN });
+    assert!(books_unchanged(&f));
+    assert!(state_kind(&f.s) == kind);
+    assert!(events.read_wake.is_none());
+    match &f.s.state {
+        ReceiveStreamState::Stopping { error, missing_data } => {
+            assert!(reset_code(error) == Some(f.code));
+            // range model: [ms, me) is still missing (me = u64::MAX: end unknown)
+            let end = off + len as u64;
+            let covers = |x: u64| off <= x && x < end;
+            let ms1 = if covers(f.ms) { end } else { f.ms };
+            let me1 = if is_fin || covers(f.me) { f.me.min(off) } else { f.me };
+            assert!(missing_data.start == ms1 && missing_data.end == me1);
+            if ms1 >= me1 {
+                // everything arrived: STOP_SENDING is not repeated, the stream may be dropped
+                kani::cover!(is_fin && f.me == u64::MAX, "FIN closes the missing range");
+                assert!(f.s.stop_sending_sync.is_cancelled());
+                assert!(f.s.final_state_observed);
+            } else {
+                kani::cover!(ms1 > f.ms, "missing range shrinks");
+                assert!(!f.s.stop_sending_sync.is_cancelled());
+                assert!(f.s.stop_sending_sync.has_transmission_interest());
+                assert!(f.s.final_state_observed == observed0);
+            }
+        }
+        ReceiveStreamState::Reset(error) => {
+            kani::cover!(len > 0, "data after a reset is dropped");
+            assert!(reset_code(error) == Some(f.code));
+            assert!(f.s.final_state_observed == observed0);
+        }
+        _ => {
+            kani::cover!(len > 0, "data after the stream was read to its end is dropped");
+            assert!(f.s.final_state_observed == observed0);
+        }
+    }
+    core::mem::forget(events);
+    core::mem::forget(f);
+}
+
+// ---------------------------------------------------------------------------------------------
+// C04-O4c: one RESET_STREAM frame in every state (RFC 9000 3.2, 4.5)
+#[cfg_attr(kani, kani::proof)]
+#[cfg_attr(kani, kani::unwind(6))]
+#[cfg_attr(kani, kani::stub(core::panic::Location::caller, StubLoc::caller))]
+fn verif_rx_on_reset() {
+    validate_layout();
+    let kind = any_kind();
+    let mut f = any_stream(kind);
+    let (b, c, w) = (f.b, f.c, f.w);
+    let parked: bool = kani::any();
+    if parked {
+        kani::assume(kind == RECEIVING);
+        f.s.read_waiter = Some((Waker::noop().clone(), 0));
+    }
+    let fs = vi(M);
+    let code = vi(M);
+    let frame = ResetStream { stream_id: VarInt::from_u8(4), application_error_code: code, final_size: fs };
+    let fs = fs.as_u64();
+    let known = c.fin != UNKNOWN;
+    // RFC 9000 4.5: data at or beyond the final size has been received
+    let below_received = kind == RECEIVING && !known && fs < c.max_recv;
+    // that region is the recorded finding (witness harness below): excluded here
+    kani::assume(!below_received);
+    let cancelled0 = f.s.stop_sending_sync.is_cancelled();
+    let mut events = StreamEvents::new();
+    let r = f.s.on_reset(&frame, &mut events);
+    let post = get_cursors(&f.s.receive_buffer, w);
+
+    let additional = fs.saturating_sub(b.acquired);
+    let open = (kind == RECEIVING && !known) || kind == STOPPING;
+    if kind == RESET || kind == DATA_READ {
+        // terminal states: nothing left to do
+        kani::cover!(kind == RESET, "second RESET_STREAM");
+        assert!(r.is_ok());
+        assert!(state_kind(&f.s) == kind && books_unchanged(&f) && post == c);
+        if kind == RESET {
+            assert!(matches!(&f.s.state, ReceiveStreamState::Reset(e) if reset_code(e) == Some(f.code)));
+        }
+    } else if kind == RECEIVING && known && fs != c.fin {
+        kani::cover!(fs > c.fin, "RESET_STREAM with a larger final size than the FIN");
+        kani::cover!(fs < c.fin, "RESET_STREAM with a smaller final size than the FIN");
+        assert!(matches!(&r, Err(e) if is_code(e, transport::Error::FINAL_SIZE_ERROR)));
+        assert!(state_kind(&f.s) == kind && books_unchanged(&f) && post == c);
+        assert!(f.s.stop_sending_sync.is_cancelled() == cancelled0);
+        assert!(events.read_wake.is_none());
+    } else if open && (fs > b.adv() || additional > b.conn_remaining()) {
+        kani::cover!(kind == RECEIVING && fs > b.adv(), "final size beyond the stream limit");
+        kani::cover!(kind == RECEIVING && fs <= b.adv(), "final size beyond the connection limit");
+        kani::cover!(kind == STOPPING, "final size beyond a limit after STOP_SENDING");
+        assert!(matches!(&r, Err(e) if is_code(e, transport::Error::FLOW_CONTROL_ERROR)));
+        assert!(state_kind(&f.s) == kind && books_unchanged(&f) && post == c);
+        assert!(f.s.stop_sending_sync.is_cancelled() == cancelled0);
+        assert!(events.read_wake.is_none());
+    } else if kind == RECEIVING && known && c.start == c.fin {
+        // Data Recvd (all data received; here: and consumed): the reset may be ignored
+        kani::cover!(true, "RESET_STREAM after all data was received");
+        assert!(r.is_ok());
+        assert!(state_kind(&f.s) == RECEIVING && books_unchanged(&f) && post == c);
+    } else {
+        kani::cover!(kind == RECEIVING && known, "reset in Size Known");
+        kani::cover!(kind == RECEIVING && !known && additional > 0, "reset in Recv with a final size beyond the data received");
+        kani::cover!(kind == RECEIVING && !known && additional == b.conn_remaining() && additional > 0, "final size exactly at the connection limit");
+        kani::cover!(kind == STOPPING && additional > 0, "reset answering STOP_SENDING");
+        assert!(r.is_ok());
+        // Reset Recvd with the peer's error code; buffered data is discarded
+        assert!(matches!(&f.s.state, ReceiveStreamState::Reset(e) if reset_code(e) == Some(code.as_u64())));
+        assert!(post == Cur { start: 0, max_recv: 0, fin: UNKNOWN });
+        // RFC 9000 4.5: the final size accounts for all bytes of the stream at connection level;
+        // all of it is handed back (nothing will be read any more)
+        let acq1 = b.acquired + additional;
+        assert!(acq1 == b.acquired.max(fs));
+        assert!(f.s.flow_controller.acquired_connection_window.as_u64() == acq1);
+        assert!(f.s.flow_controller.released_connection_window.as_u64() == acq1);
+        assert!(f.conn.acquired_window().as_u64() == b.conn_acquired + additional);
+        // no MAX_STREAM_DATA, no STOP_SENDING any more
+        assert!(f.s.flow_controller.read_window_sync.is_cancelled());
+        assert!(f.s.stop_sending_sync.is_cancelled());
+        let mut interests = StreamInterests::default();
+        f.s.stream_interests(&mut interests);
+        assert!(interests.transmission == crate::transmission::Interest::None);
+        // a parked reader learns of the reset
+        assert!(events.read_wake.is_some() == parked);
+        // and the application gets the reset, never data
+        let mut req = ops::rx::Request::default();
+        let pr = f.s.poll_request(&mut req, None);
+        assert!(matches!(&pr, Err(e) if reset_code(e) == Some(code.as_u64())));
+        // connection credit: consumed grew by everything that was outstanding on this stream
+        let remaining1 = b.conn_remaining() - additional + (acq1 - b.released);
+        assert!(conn_remaining_is(&f.conn, remaining1));
+    }
+    core::mem::forget(events);
+    core::mem::forget(f);
+}
+
+// Recorded finding (C04, RFC 9000 4.5): a RESET_STREAM whose final size lies BELOW data already
+// received on a stream without FIN is accepted (init_reset compares the final size only against
+// one announced by a FIN, never against the highest offset received).  RFC 9000 4.5: "A receiver
+// SHOULD treat receipt of data at or beyond the final size as an error of type FINAL_SIZE_ERROR".
+// Restricted to that region; expected to fail.
+#[cfg_attr(kani, kani::proof)]
+#[cfg_attr(kani, kani::unwind(6))]
+#[cfg_attr(kani, kani::stub(core::panic::Location::caller, StubLoc::caller))]
+fn verif_rx_on_reset_below_received_finding_witness() {
+    validate_layout();
+    let mut f = any_stream(RECEIVING);
+    let c = f.c;
+    let fs = vi(M);
+    let frame = ResetStream { stream_id: VarInt::from_u8(4), application_error_code: vi(M), final_size: fs };
+    kani::assume(c.fin == UNKNOWN && fs.as_u64() < c.max_recv);
+    let mut events = StreamEvents::new();
+    let r = f.s.on_reset(&frame, &mut events);
+    kani::cover!(fs.as_u64() + 1 == c.max_recv, "RESET_STREAM one byte below the highest offset received");
+    assert!(matches!(&r, Err(e) if is_code(e, transport::Error::FINAL_SIZE_ERROR)));
+    core::mem::forget(events);
+    core::mem::forget(f);
+}
+
+// ---------------------------------------------------------------------------------------------
+// C04-O4d: the application stops reading (STOP_SENDING, RFC 9000 3.5) in every state
+#[cfg_attr(kani, kani::proof)]
+#[cfg_attr(kani, kani::unwind(9))]
+#[cfg_attr(kani, kani::stub(core::panic::Location::caller, StubLoc::caller))]
+fn verif_rx_stop_sending() {
+    validate_layout();
+    let kind = any_kind();
+    let mut f = any_stream(kind);
+    let (c, w) = (f.c, f.w);
+    let known = c.fin != UNKNOWN;
+    if kind == RECEIVING && kani::any() {
+        f.s.read_waiter = Some((Waker::noop().clone(), 0));
+    }
+    let code = vi(M);
+    let mut req = ops::rx::Request::default();
+    req.stop_sending = Some(code.into());
+    let r = f.s.poll_request(&mut req, None);
+    let post = get_cursors(&f.s.receive_buffer, w);
+    let status = r.as_ref().ok().map(|resp| resp.status);
+    assert!(r.is_ok());
+    // stopping neither charges nor releases flow-control credit
+    assert!(books_unchanged(&f));
+    let sid = StreamId::from_varint(VarInt::from_u8(4));
+    let mut ctx = StubCtx::new(24);
+    // keep MAX_STREAM_DATA out of the way: only STOP_SENDING is of interest below
+    f.s.flow_controller.stop_sync();
+    if kind == RESET || kind == STOPPING {
+        // already reset / stopped: the first error is reported, nothing new is requested
+        kani::cover!(kind == STOPPING && code.as_u64() != f.code, "second stop with another error code");
+        assert!(matches!(status, Some(ops::Status::Reset(e)) if reset_code(&e) == Some(f.code)));
+        assert!(state_kind(&f.s) == kind);
+        if let ReceiveStreamState::Stopping { error, missing_data } = &f.s.state {
+            assert!(reset_code(error) == Some(f.code));
+            assert!(missing_data.start == f.ms && missing_data.end == f.me);
+        }
+        assert!(f.s.on_transmit(sid, &mut ctx).is_ok());
+        // RFC 9000 3.5: no STOP_SENDING for a stream the peer has reset
+        assert!(ctx.frames_written == (kind == STOPPING) as usize);
+    } else if kind == DATA_READ || (known && c.start == c.fin) {
+        // everything was received: there is nothing the peer could stop
+        kani::cover!(kind == RECEIVING, "stop after all data was received");
+        assert!(status == Some(ops::Status::Finished));
+        assert!(f.s.state == ReceiveStreamState::DataRead);
+        assert!(f.s.final_state_observed);
+        assert!(f.s.on_transmit(sid, &mut ctx).is_ok());
+        assert!(ctx.frames_written == 0);
+    } else {
+        kani::cover!(known, "stop in Size Known");
+        kani::cover!(!known, "stop in Recv");
+        assert!(matches!(status, Some(ops::Status::Reset(e)) if reset_code(&e) == Some(code.as_u64())));
+        // buffered data is dropped: nothing is delivered afterwards (see C04-O4b for later frames)
+        assert!(post == Cur { start: 0, max_recv: 0, fin: UNKNOWN });
+        assert!(f.s.read_waiter.is_none() && f.s.detached);
+        match &f.s.state {
+            ReceiveStreamState::Stopping { error, missing_data } => {
+                assert!(reset_code(error) == Some(code.as_u64()));
+                // with an empty buffer everything received in order == everything consumed
+                assert!(missing_data.start == c.start && missing_data.end == u64::MAX);
+            }
+            _ => assert!(false),
+        }
+        // STOP_SENDING with the application's code goes out
+        assert!(f.s.on_transmit(sid, &mut ctx).is_ok());
+        assert!(ctx.frames_written == 1);
+        let fr = &ctx.last_frame[..ctx.last_frame_len];
+        assert!(fr[0] == 0x05 && fr[1] == 0x04);
+        assert!(ref_varint(&fr[2..]) == Some((code.as_u64(), fr.len() - 2)));
+    }
+    core::mem::forget(f);
+}
+
+// ---------------------------------------------------------------------------------------------
+// C04-O4e: what the receive half puts on the wire, in every state: MAX_STREAM_DATA carries exactly
+// consumed + window and is sent only while the final size is open (RFC 9000 3.2, 4.1);
+// STOP_SENDING only while stopping; an acknowledged frame is not repeated, a lost one is - unless a
+// RESET_STREAM arrived in between.
+#[cfg_attr(kani, kani::proof)]
+#[cfg_attr(kani, kani::unwind(9))]
+#[cfg_attr(kani, kani::stub(core::panic::Location::caller, StubLoc::caller))]
+fn verif_rx_transmit_sync() {
+    validate_layout();
+    let kind = any_kind();
+    let mut f = any_stream(kind);
+    let b = f.b;
+    let known = f.c.fin != UNKNOWN;
+    let sid = StreamId::from_varint(VarInt::from_u8(4));
+    let credit_open = (kind == RECEIVING && !known) || kind == STOPPING;
+    // an update is due when it exceeds what the peer acknowledged by a tenth of the window
+    let significant = b.adv() != f.ackd && b.adv() - f.ackd >= (b.s_window / 10) as u64;
+    let want_stop = kind == STOPPING;
+    let want_msd = credit_open && significant;
+    let mut ctx = StubCtx::new(24);
+    assert!(f.s.on_transmit(sid, &mut ctx).is_ok());
+    assert!(ctx.frames_written == want_stop as usize + want_msd as usize);
+    let check_last = |ctx: &StubCtx| {
+        let fr = &ctx.last_frame[..ctx.last_frame_len];
+        if want_msd {
+            // the advertised limit is consumed + window, never more
+            assert!(fr[0] == 0x11 && fr[1] == 0x04);
+            assert!(ref_varint(&fr[2..]) == Some((b.adv(), fr.len() - 2)));
+            assert!(b.adv() - b.released <= b.s_window as u64);
+        } else if want_stop {
+            assert!(fr[0] == 0x05 && fr[1] == 0x04);
+            assert!(ref_varint(&fr[2..]) == Some((f.code, fr.len() - 2)));
+        }
+    };
+    check_last(&ctx);
+    kani::cover!(want_msd && !want_stop, "MAX_STREAM_DATA sent");
+    kani::cover!(want_msd && want_stop, "STOP_SENDING and MAX_STREAM_DATA sent");
+    kani::cover!(kind == RECEIVING && known && significant, "no MAX_STREAM_DATA once the size is known");
+    kani::cover!(kind == RESET && significant, "no MAX_STREAM_DATA after a reset");
+
+    // the packet (number 7) is acknowledged or lost, or the report is about other packets
+    let lo: u64 = kani::any();
+    let hi: u64 = kani::any();
+    kani::assume(lo <= hi && hi < 16);
+    let set = PacketNumberRange::new(pn(lo), pn(hi));
+    let hit = lo <= 7 && 7 <= hi;
+    let ev: u8 = kani::any();
+    kani::assume(ev < 3);
+    let mut reset = false;
+    match ev {
+        0 => f.s.on_packet_ack(&set),
+        1 => f.s.on_packet_loss(&set),
+        _ => {
+            // a RESET_STREAM (final size = everything received so far) arrives, then the loss
+            let frame = ResetStream {
+                stream_id: VarInt::from_u8(4),
+                application_error_code: VarInt::from_u8(1),
+                final_size: VarInt::new(b.acquired).unwrap(),
+            };
+            let mut events = StreamEvents::new();
+            assert!(f.s.on_reset(&frame, &mut events).is_ok());
+            reset = state_kind(&f.s) == RESET;
+            f.s.on_packet_loss(&set);
+            core::mem::forget(events);
+        }
+    }
+    let mut ctx2 = StubCtx::new(24);
+    assert!(f.s.on_transmit(sid, &mut ctx2).is_ok());
+    if ev >= 1 && hit && !reset {
+        kani::cover!(want_msd, "lost MAX_STREAM_DATA repeated");
+        kani::cover!(want_stop, "lost STOP_SENDING repeated");
+        assert!(ctx2.frames_written == ctx.frames_written);
+        if ctx2.frames_written > 0 {
+            check_last(&ctx2);
+        }
+    } else {
+        kani::cover!(ev == 2 && hit && (want_msd || want_stop) && reset, "nothing is repeated after a RESET_STREAM");
+        kani::cover!(ev == 0 && hit && want_stop, "acknowledged STOP_SENDING is not repeated");
+        assert!(ctx2.frames_written == 0);
+    }
+    core::mem::forget(f);
 }
 
 // ---- generated by tools/fixup.py: native replay entry ----
@@ -377,5 +838,10 @@ fn verif_rx_on_data_receiving() {
 fn verif_replay() {
     kani::replay(&[
         ("verif_rx_on_data_receiving", verif_rx_on_data_receiving),
+        ("verif_rx_on_data_closed", verif_rx_on_data_closed),
+        ("verif_rx_on_reset", verif_rx_on_reset),
+        ("verif_rx_on_reset_below_received_finding_witness", verif_rx_on_reset_below_received_finding_witness),
+        ("verif_rx_stop_sending", verif_rx_stop_sending),
+        ("verif_rx_transmit_sync", verif_rx_transmit_sync),
     ]);
 }
